@@ -21,12 +21,12 @@ func init() {
 	core.Register(&core.Prop{
 		ID:    "C02",
 		Level: "exploration",
-		Rule: "generated templates biased to what consumes maps (for/tablerow over maps of 2..12 entries with offset/limit/reversed, map-to-array filters first/last/join/sort/map/reverse/uniq/size/concat/compact, printing of maps, IterationKeyedMap, yaml.MapSlice, nested maps, maps inside Drops) plus general generated programs; for every case ALL of these must give byte-identical output (or the same error text, line and path): 30 renders of one parsed template, 10 fresh parses, 5 fresh engines, the six entry points Render / RenderString / FRender / ParseAndRender / ParseAndRenderString / ParseAndFRender, 6 rebuilds of the binding maps in PRNG-permuted insertion order with different capacities, and a fresh child process re-rendering every case of the shard; plus a date family: date strings written in 16 layouts x 9 zone spellings, each rendered through the date filter and through comparisons after different histories of other date strings (what was parsed earlier in the process must not matter); plus the cmd/liquid binary (stdin and FILE argument, --env under env -i, with and without --strict) against the library. Non-trivial = the template consumes a map with >= 2 entries; distinct = distinct (template, logical bindings).",
+		Rule: "generated templates biased to what consumes maps (for/tablerow over maps of 2..12 entries with offset/limit/reversed, map-to-array filters first/last/join/sort/map/reverse/uniq/size/concat/compact, printing of maps, IterationKeyedMap, yaml.MapSlice, nested maps, maps inside Drops) plus general generated programs and application tags that write variables (Context.Set, and through the map Context.Bindings returns); for every case ALL of these must give byte-identical output (or the same error text, line and path): 30 renders of one parsed template, 10 fresh parses, 5 fresh engines, the six entry points Render / RenderString / FRender / ParseAndRender / ParseAndRenderString / ParseAndFRender, 6 rebuilds of the binding maps in PRNG-permuted insertion order with different capacities, and a fresh child process re-rendering every case of the shard; plus a date family: date strings written in 16 layouts x 9 zone spellings, each rendered through the date filter and through comparisons after different histories of other date strings (what was parsed earlier in the process must not matter); plus the cmd/liquid binary (stdin and FILE argument, --env under env -i, with and without --strict) against the library. Non-trivial = the template consumes a map with >= 2 entries; distinct = distinct (template, logical bindings).",
 		Exhaustive: func(string) bool { return false },
 		Assumptions: []string{
 			"the map/program templates never use date/now and children run with TZ=UTC (the property exempts clock and time zone); the date family parses fixed date strings (never now) and is compared within one process only, where the time zone is one",
 			"which order maps iterate in is not asserted, only that it is one order",
-			"rebuilds keep the Go representation and change only construction order and capacity; text that spells Go values holding pointers (error messages, json/inspect) can contain addresses and is not covered",
+			"rebuilds keep the Go representation and change only construction order, capacity and (for the typed containers of pointers) the pointees' addresses; text that spells Go structs holding pointers (error messages, json/inspect, a printed struct) can contain addresses and is not covered",
 		},
 		MinEvents: map[string]int64{"executions_compared": 50000, "cross_process_cases": 200},
 		Run:       runC02,
@@ -95,6 +95,10 @@ func c02Gen(r *core.Rand, i int) c02case {
 		"{{ mixed | compact | size }}{{ mixed | size }}{{ arr | reverse | first }}{{ arr | first }}{{ arr | uniq | size }}{{ arr | size }}",
 		// maps with interface keys: string keys, then non-string keys of several kinds, numerically equal keys of different types
 		"{% for kv in anys %}{{ kv[0] }}={{ kv[1] }};{% endfor %}|{% for kv in anyn %}{{ kv[0] }}={{ kv[1] }};{% endfor %}|{% for kv in anye %}{{ kv[1] }};{% endfor %}",
+		// typed containers of pointers written out whole
+		"{{ pm }}|{{ ps | join: ',' }}|{{ ps }}|{{ pps }}|{{ mps }}", "{{ 'x' | append: ps }}|{{ pm | join: '+' }}|{{ mps.k | join: ',' }}|{{ pps | first | join: ',' }}|{{ pm.a }}{{ pst.s.Name }}{{ pps[1][0] }}",
+		// application tags that write: what they write belongs to one render
+		"{% xbump hits %}{% xbump hits %}hits={{ hits }} {% xbump n %}n={{ n }}{% xset seen = hits %}{{ seen }}", "{% for kv in flat %}{% xbump count %}{% endfor %}{{ count }}{% xbump flat %}{{ flat }}",
 		"{{ anyn | join: ',' }}|{{ anys | first | last }}|{% tablerow kv in anye %}{{ kv[1] }}{% endtablerow %}|{{ bigkeys | join: ',' }}|{% for kv in bigkeys %}{{ kv[0] }};{% endfor %}",
 	}
 	cs := c02case{env: env, mapUse: true}
@@ -117,6 +121,13 @@ func c02Gen(r *core.Rand, i int) c02case {
 		cs.ordered = append(cs.ordered, yaml.MapItem{Key: kv.K, Value: gen.Canon(kv.V)})
 	}
 	return cs
+}
+
+// c02Engine: a default engine plus the application tags of custom.go.
+func c02Engine() *liquid.Engine {
+	e := liquid.NewEngine()
+	RegisterCustom(e)
+	return e
 }
 
 // bind builds the Go bindings; every call constructs fresh maps in a PRNG-permuted order.
@@ -155,6 +166,14 @@ func (cs c02case) bind(r *core.Rand) map[string]any {
 		bigkeys[int64(1)<<60+int64(j)] = fmt.Sprintf("v%d", j)
 	}
 	b["anys"], b["anyn"], b["anye"], b["bigkeys"] = anys, anyn, anye, bigkeys
+	// typed containers of pointers: freshly allocated on every rebuild, so an address in the output shows at once
+	pi := func(i int) *int { return &i }
+	ps := func(s string) *string { return &s }
+	b["pm"] = map[string]*int{"a": pi(1), "b": pi(2), "n": nil}
+	b["ps"] = []*string{ps("x"), ps("y")}
+	b["pps"] = [][]*int{{pi(1), pi(2)}, {pi(3)}}
+	b["mps"] = map[string][]*string{"k": {ps("v"), ps("w")}}
+	b["pst"] = map[string]*gen.DataStruct{"s": {Name: "nm", Count: 2}}
 	flat, _ := cs.env.Lookup("flat")
 	b["dm"] = gen.DropV{X: gen.Realise(flat, r, gen.Rep{}, true)}
 	return b
@@ -164,7 +183,7 @@ func runC02(c *core.Ctx) {
 	child := os.Getenv("VCHECK_C02_CHILD") == "1"
 	n := c.Pick(20000, 300000)
 	digest := &bytes.Buffer{}
-	e := liquid.NewEngine()
+	e := c02Engine()
 	for i := 0; i < n; i++ {
 		if !c.Mine(i) {
 			continue
@@ -205,7 +224,7 @@ func runC02(c *core.Ctx) {
 			add(fmt.Sprintf("fresh parse %d", k), core.Run(e, cs.src, b0))
 		}
 		for k := 0; k < 5; k++ {
-			add(fmt.Sprintf("fresh engine %d", k), core.Run(liquid.NewEngine(), cs.src, b0))
+			add(fmt.Sprintf("fresh engine %d", k), core.Run(c02Engine(), cs.src, b0))
 		}
 		if pr.OK() {
 			add("RenderString", core.RenderString(tpl, b0))
